@@ -1,5 +1,128 @@
-/- Line-protocol driver for the C20 model (stub until the model exists). -/
+/- Line-protocol driver for the C20 models (ForML.Model.Conf, ForML.Model.Bank).
+
+  (stack (<cfg> …))                                   → (ok <cfg, keys sorted>)
+  (section <cfg> group ref kProvider kParams)         → (ok <provider cfg | none> <params table>) | missing | malformed
+  (bank (<module> …) (<op> …))                        → (<result> …)
+      module ::= (<mod> (sub …) (<class> …))          mod ::= (pkg sub|none)
+      class  ::= (<mod> qn alias|none abstract (<classid> …) (<mod> …))      classid ::= (<mod> qn)
+      op     ::= (import <mod>) | (get <classid> <ref> (<mod> …))            ref ::= (a n) | (q <mod> qn)
+      result ::= ok | notfound | (err e) | (ok <classid>) | bad-order
+  cfg ::= (s n) | (l n …) | (t (k <cfg>) …)
+-/
 import ForML.Model.Sexp
+import ForML.Model.Conf
+import ForML.Model.Bank
 open ForML
 
-def main : IO Unit := driverLoop (fun _ => .atom "no-model")
+namespace C20Driver
+open ForML.Conf
+
+partial def cfg? : Sexp → Option Cfg
+  | .list [.atom "s", n] => n.nat?.map Cfg.scalar
+  | .list (.atom "l" :: xs) => (xs.mapM Sexp.nat?).map Cfg.list
+  | .list (.atom "t" :: es) =>
+    (es.mapM (fun (e : Sexp) => match e with
+      | Sexp.list [k, v] => do pure ((← k.nat?), (← cfg? v))
+      | _ => none)).map Cfg.table
+  | _ => none
+
+partial def insertSorted (e : Nat × Sexp) : List (Nat × Sexp) → List (Nat × Sexp)
+  | [] => [e]
+  | x :: r => if e.1 ≤ x.1 then e :: x :: r else x :: insertSorted e r
+
+partial def ofCfg : Cfg → Sexp
+  | .scalar n => Sexp.list [Sexp.atom "s", Sexp.ofNat n]
+  | .list xs => Sexp.list (Sexp.atom "l" :: xs.map Sexp.ofNat)
+  | .table t =>
+    let es := t.foldl (fun acc e => insertSorted (e.1, ofCfg e.2) acc) []
+    Sexp.list (Sexp.atom "t" :: es.map (fun e => Sexp.list [Sexp.ofNat e.1, e.2]))
+
+open ForML.Bank
+
+def optNat? : Sexp → Option (Option Nat)
+  | .atom "none" => some none
+  | x => x.nat?.map some
+
+def bool? : Sexp → Option Bool
+  | .atom "true" => some true
+  | .atom "false" => some false
+  | _ => none
+
+def mod? : Sexp → Option Mod
+  | .list [p, s] => do pure ⟨← p.nat?, ← optNat? s⟩
+  | _ => none
+
+def classId? : Sexp → Option ClassId
+  | .list [m, q] => do pure ⟨← mod? m, ← q.nat?⟩
+  | _ => none
+
+def class? : Sexp → Option ClassDef
+  | .list [m, q, a, ab, .list ps, .list paths] => do
+    pure ⟨⟨← mod? m, ← q.nat?⟩, ← optNat? a, ← bool? ab, ← ps.mapM classId?, ← paths.mapM mod?⟩
+  | _ => none
+
+def module? : Sexp → Option (Mod × ModuleDef)
+  | .list [m, subs, .list cs] => do pure (← mod? m, ⟨← subs.natList?, ← cs.mapM class?⟩)
+  | _ => none
+
+def ref? : Sexp → Option Ref
+  | .list [.atom "a", n] => n.nat?.map .alias
+  | .list [.atom "q", m, q] => do pure (.qual ⟨← mod? m, ← q.nat?⟩)
+  | _ => none
+
+inductive Op where
+  | imp : Mod → Op
+  | get : ClassId → Ref → List Mod → Op
+
+def op? : Sexp → Option Op
+  | .list [.atom "import", m] => (mod? m).map .imp
+  | .list [.atom "get", i, r, .list order] => do pure (.get (← classId? i) (← ref? r) (← order.mapM mod?))
+  | _ => none
+
+def ofErr : Err → Sexp
+  | .collision => .atom "collision"
+  | .abstractAlias => .atom "abstract-alias"
+  | .preload => .atom "preload"
+  | .missing => .atom "missing"
+
+def ofMod (m : Mod) : Sexp := .list [Sexp.ofNat m.pkg, match m.sub with
+  | some s => Sexp.ofNat s
+  | none => .atom "none"]
+
+def runOps (w : World) : St → List Op → List Sexp
+  | _, [] => []
+  | st, .imp m :: rest =>
+    match importMod w st m with
+    | none => .atom "notfound" :: runOps w st rest
+    | some (st', some e) => .list [.atom "err", ofErr e] :: runOps w st' rest
+    | some (st', none) => .atom "ok" :: runOps w st' rest
+  | st, .get i r order :: rest =>
+    if !validOrder (getBank i st.banks).paths order then .atom "bad-order" :: runOps w st rest
+    else match ForML.Bank.get w st i r order with
+      | (st', .ok c) => .list [.atom "ok", .list [ofMod c.mod, Sexp.ofNat c.qn]] :: runOps w st' rest
+      | (st', .error e) => .list [.atom "err", ofErr e] :: runOps w st' rest
+
+def step : Sexp → Sexp
+  | .list [.atom "stack", .list cs] =>
+    match cs.mapM cfg? with
+    | some cs => .list [.atom "ok", ofCfg (stack (.table []) cs)]
+    | none => .atom "bad-op"
+  | .list [.atom "section", c, g, r, kp, kq] =>
+    match cfg? c, g.nat?, r.nat?, kp.nat?, kq.nat? with
+    | some c, some g, some r, some kp, some kq =>
+      match resolveSection c g r kp kq with
+      | .ok (prov, params) => .list [.atom "ok", (match prov with
+          | some p => ofCfg p
+          | none => .atom "none"), ofCfg (.table params)]
+      | .error .missing => .atom "missing"
+      | .error .malformed => .atom "malformed"
+    | _, _, _, _, _ => .atom "bad-op"
+  | .list [.atom "bank", .list ms, .list ops] =>
+    match ms.mapM module?, ops.mapM op? with
+    | some w, some ops => .list (runOps w St.empty ops)
+    | _, _ => .atom "bad-op"
+  | _ => .atom "bad-op"
+
+end C20Driver
+
+def main : IO Unit := driverLoop C20Driver.step
